@@ -180,7 +180,9 @@ func (tx *Tx) CalcInputPreimageLegacy(inputNumber uint32, shf sighash.Flag) ([]b
 	// cleverly construct transactions which can steal those coins provided
 	// they can reuse signatures.
 	if shf.HasWithMask(sighash.Single) && int(inputNumber) > len(tx.Outputs)-1 {
-		return defaultHex, nil
+		// Return a copy: the caller owns the result and must not be able to
+		// alter the package-level constant through it.
+		return append([]byte{}, defaultHex...), nil
 	}
 
 	txCopy := tx.Clone()
